@@ -247,6 +247,49 @@ func c10Structured(r *fw.Rec, kind string, blk, nblk int) {
 			add(fmt.Sprintf("0xM%016X%016X", rng.Uint64(), rng.Uint64()), "prng")
 		}
 	}
+	// one-digit mantissas times powers of ten, both signs (the printer's
+	// scientific notation with a single digit before the exponent); for half and
+	// float only the values exactly representable there (LLVM rejects the others,
+	// and finding that out one by one is slow)
+	if (kind == "double" || kind == "float" || kind == "half") && blk == 0 {
+		exact := func(v float64) bool {
+			switch kind {
+			case "float":
+				return float64(float32(v)) == v
+			case "half":
+				a := math.Abs(v)
+				if a > 65504 {
+					return false
+				}
+				if a < math.Ldexp(1, -14) {
+					return math.Mod(math.Ldexp(a, 24), 1) == 0
+				}
+				m, _ := math.Frexp(a)
+				return math.Mod(m*2048, 1) == 0
+			}
+			return true
+		}
+		for k := -8; k <= 30; k++ {
+			for d := 1; d <= 9; d += 2 {
+				v, _ := strconv.ParseFloat(fmt.Sprintf("%de%d", d, k), 64)
+				if !exact(v) {
+					continue
+				}
+				for _, sg := range []string{"", "-"} {
+					add(fmt.Sprintf("%s%d.0e%+03d", sg, d, k), "decimal-one-digit-mantissa")
+					if k >= 0 && k <= 18 {
+						add(fmt.Sprintf("%s%d%s.0", sg, d, strings.Repeat("0", k)), "decimal-one-digit-mantissa")
+					}
+				}
+			}
+		}
+	}
+	// decimals far below the smallest subnormal (they underflow to zero, also as doubles)
+	if (kind == "double" || kind == "float" || kind == "half") && blk == 0 {
+		for _, lit := range []string{"1.0e-999", "-1.0e-999", "1.0e-450", "1.0e-330", "-2.5e-400", "1.0e-60", "0.0e+00", "-0.0e+00"} {
+			add(lit, "decimal-underflow")
+		}
+	}
 	// spellings with fewer digits than the full width of a kind-prefixed form
 	// (LLVM accepts them: 0xK takes up to 4 digits of sign/exponent first, 0xL and
 	// 0xM take the first 16 digits as their first word once there are 16)
